@@ -59,6 +59,7 @@ pub fn judge_rel(
             }
             let rv = dy(r);
             let ratio = rel_ratio(&rv, tv, p, q);
+            c.xsample("rel", op, p, q, ins, &outs(r), rel_le(&rv, tv, p, q));
             if !rel_le(&rv, tv, p, q) {
                 c.viol(
                     op,
@@ -814,6 +815,7 @@ fn judge_quot(c: &mut Ctx, op: &'static str, bound: &'static str, ins: &[u64], r
             let e = dy(r).mul(db).sub(da).abs().mul_pow2(106);
             let bd = da.abs().mul_u64(p);
             let ratio = if e.is_zero() { 0.0 } else { e.ratio_f64(&bd) };
+            c.xsample("quot", op, p, 106, ins, &outs(r), e.le(&bd));
             if !e.le(&bd) {
                 c.viol(op, "accuracy", ins, &outs(r), format!("|r*b - a| > {bound}*|a|: err/bound = {ratio:.4e}"));
             }
